@@ -137,7 +137,18 @@ def ws_session(seed: int) -> bytes:
     return hs + frames
 
 
-SESSIONS = {"h1": h1_session, "h2": h2_session, "ws": ws_session}
+def h2c_session(seed: int) -> bytes:
+    """HTTP/1.1 request offering the h2c upgrade, then (as a client that got its 101 would) the
+    HTTP/2 preface and two more requests."""
+    b = H2Builder()
+    b.request(3, b"/b", b"POST", make_body(seed % 20 + 1, seed))
+    b.request(5, b"/c")
+    return (b"GET /a HTTP/1.1\r\nHost: example.com\r\nConnection: Upgrade, HTTP2-Settings\r\n"
+            b"Upgrade: h2c\r\nHTTP2-Settings: AAMAAABkAAQAAP__\r\nAccept: */*\r\n\r\n"
+            + bytes(b.out))
+
+
+SESSIONS = {"h1": h1_session, "h2": h2_session, "ws": ws_session, "h2c": h2c_session}
 
 # --------------------------------------------------------------------------- generators
 
@@ -165,7 +176,7 @@ def bytes_case(draw: Any) -> Dict[str, Any]:
 
 @st.composite
 def mutate_case(draw: Any) -> Dict[str, Any]:
-    kind = draw(st.sampled_from(["h1", "h2", "ws"]))
+    kind = draw(st.sampled_from(["h1", "h2", "ws", "h2c"]))
     muts = []
     for _ in range(draw(st.integers(1, 4))):
         m = draw(st.sampled_from(["flip", "set", "truncate", "dup", "splice", "insert", "delete"]))
